@@ -289,3 +289,10 @@ PROPS["C01"]["rule"] += " ; plus the mutate engine: objects mutated in place aft
 
 PROPS["C08"]["engines"].append(("multifile", {"quick": 40, "thorough": 800}))
 PROPS["C08"]["rule"] += " ; plus real sessions over 2-3 files (create / fix of plain, HasRepr and outsourced values in one file): the same tests run again and pass"
+
+PROPS["C14"]["engines"].append(("mutate", {"quick": 600, "thorough": 15000}))
+PROPS["C14"]["rule"] += " ; plus the mutate engine (objects mutated between repeated evaluations of one call: the union / extreme is built from the values as they were observed)"
+
+PROPS["C09"]["engines"].append(("multifile", {"quick": 40, "thorough": 800}))
+PROPS["C09"]["rule"] += (" ; plus real sessions over 2-3 files (displays ending in a trailing comma edited by two categories, list fixes, updates, creates): the categories approved together "
+                         "and one at a time in two orders, through the plugin's own report / apply loop")
